@@ -347,11 +347,11 @@ theorem winv_clamp (s : Snd) (w : WInv s) : WInv (if s.outstanding < 0 then { s 
 /-- **an acknowledgement of new data keeps the window within the credits**: every write-list segment it
 removes is one credit, and `renoState.Update` raises the potential by at most that number -/
 theorem ackAdvance_inv (s : Snd) (ack : Nat) (w : WInv s) : WInv (ackAdvance s ack) := by
-  have w0 : WInv { s with dupAck := 0, timerEnabled := false, sndUna := ack, gUna := s.gUna + sizeS s.sndUna ack } :=
+  have w0 : WInv { s with dupAck := 0, timerEnabled := false, sndUna := ack, gUna := s.gUna + sizeS s.sndUna ack, gEdge := max s.gEdge (s.gUna + sizeS s.sndUna ack + s.sndWnd % M) } :=
     ⟨w.out, w.pot, w.pos, w.ss, w.fr, w.ca⟩
   obtain ⟨h1, h2, h3, h4, h5, h6, k, h7, h8⟩ :=
-    ackLoop_rel (s.writeList.length + 1) { s with dupAck := 0, timerEnabled := false, sndUna := ack, gUna := s.gUna + sizeS s.sndUna ack } (sizeS s.sndUna ack)
-  exact winv_clamp _ (advance_core { s with dupAck := 0, timerEnabled := false, sndUna := ack, gUna := s.gUna + sizeS s.sndUna ack } _ k w0 h1 h2 h3 h4 h5 h6 h7 h8)
+    ackLoop_rel (s.writeList.length + 1) { s with dupAck := 0, timerEnabled := false, sndUna := ack, gUna := s.gUna + sizeS s.sndUna ack, gEdge := max s.gEdge (s.gUna + sizeS s.sndUna ack + s.sndWnd % M) } (sizeS s.sndUna ack)
+  exact winv_clamp _ (advance_core { s with dupAck := 0, timerEnabled := false, sndUna := ack, gUna := s.gUna + sizeS s.sndUna ack, gEdge := max s.gEdge (s.gUna + sizeS s.sndUna ack + s.sndWnd % M) } _ k w0 h1 h2 h3 h4 h5 h6 h7 h8)
 
 theorem sndPrepare_inv (e : Ep) (seg : InSeg) (wnd : Nat) (ts : Model.Header.TCPOpts) (w : WInv e.snd) :
     WInv (sndPrepare e seg wnd ts).1.snd := by
@@ -361,7 +361,7 @@ theorem sndPrepare_inv (e : Ep) (seg : InSeg) (wnd : Nat) (ts : Model.Header.TCP
     unfold updateRecentTimestamp; split <;> rfl
   rw [e0s]
   have wc := checkDuplicateAck_inv e.snd seg.ack seg.logicalLen wnd w
-  have ws : WInv { (checkDuplicateAck e.snd seg.ack seg.logicalLen wnd).1 with sndWnd := wnd } :=
+  have ws : WInv { (checkDuplicateAck e.snd seg.ack seg.logicalLen wnd).1 with sndWnd := wnd, gEdge := max (checkDuplicateAck e.snd seg.ack seg.logicalLen wnd).1.gEdge ((checkDuplicateAck e.snd seg.ack seg.logicalLen wnd).1.gUna + wnd % M) } :=
     ⟨wc.out, wc.pot, wc.pos, wc.ss, wc.fr, wc.ca⟩
   have key : ∀ e1 : Ep, WInv e1.snd → WInv (if (checkDuplicateAck e.snd seg.ack seg.logicalLen wnd).2 = true then resendSegment e1 else (e1, [])).1.snd := by
     intro e1 h1
